@@ -292,7 +292,7 @@ def replay(case):
     name, cfg = case['algorithm'], case['config']
     S = _setup(name, cfg)
     A = S['alphabet']
-    label = name + (':%d' % len(A) if name in ('luhn', 'mod_37_2', 'mod_37_36', 'mod_97_10') else '')
+    label = name + (':%d' % len(A) if name in ('luhn', 'mod_37_2', 'mod_37_36', 'mod_97_10') else '') + (':table' if cfg.get('table') else '')
     a, b, clause = case['a'], case['b'], case['clause']
     bad = False
     if clause in ('substitution-undetected', 'transposition-undetected'):
